@@ -178,12 +178,7 @@ def make_judges(ctx):
             dt = np.dtype(x.vdtype)
         except TypeError:
             dt = None
-        if ev.op in ('get_val', '__call__') and dt is not None and dt.kind in 'iu':
-            # integer value dtype: get_val floors the unscaled value first
-            exp2 = [sc * F(R.floor_f(k * lsb)) + bi for k in codes]
-            ok = got in (exp, exp2)
-        else:
-            ok = got == exp
+        ok = got == exp
         if not ok:
             ctx.violation('read', '%s of %s scale=%r bias=%r codes %s returned %.80r, expected %s' % (ev.op, R.dtype_fxp(*x.fmt()), x.scale, x.bias, x.codes[:3], ev.result, [str(e) for e in exp[:3]]), ev)
         ctx.judged(('read', ev.op, 'element' if (index is not None or item is not None) else 'whole', sc > 0, sc == 1, bi == 0, any(k < 0 for k in codes)), True, None, elements=len(exp))
